@@ -185,7 +185,7 @@ pub fn subs<'a>(_args: &Args) -> Vec<SubCheck<'a>> {
             move |env: &mut Env| {
                 let n = env.cases(4000, 30);
                 env.tally.notes.insert("api_entries".into(), json!(n_entries));
-                let st = (proptest::collection::vec(hidden_strategy(), 2 * NH), proptest::collection::vec(visible(), NW)).prop_map(|(mut h, a)| {
+                let st = (proptest::collection::vec(hidden_strategy(), 2 * NH), vcore::lattice::with_related_operands(proptest::collection::vec(visible(), NW).boxed(), 32)).prop_map(|(mut h, a)| {
                     h.extend(a);
                     h
                 });
